@@ -28,6 +28,12 @@ def configs(tier, seed):
         for args in ([1, 1, 2], [2, 1, 2], [1, 2, 3], [2, 2, 4]):
             out.append(dict(args=args, S=2, mults=[1, 2], depth=3))
             out.append(dict(args=args, S=2, mults=[2], depth=4, ngrams=[]))
+        # mixed key lengths in ONE cell, deeper: a shorter key takes over a longer one's cell and
+        # the result is merged with a sketch holding the short key (stem, stem+'z', other)
+        out.append(dict(args=[1, 1, 2], S=2, mults=[1, 2], depth=4, keep=[0, 6, 5], ngrams=[],
+                        saveload=False))
+        out.append(dict(args=[1, 2, 3], S=2, mults=[2], depth=5, keep=[0, 6], ngrams=[],
+                        saveload=False))
         # all orderings of unit adds in one width-1 cell
         out.append(dict(args=[1, 1, 2], S=1, mults=[1], depth=6, saveload=False, ngrams=[]))
     else:
@@ -44,7 +50,7 @@ def configs(tier, seed):
 
 
 def pool_size(tier):
-    return 9 if tier == "quick" else 16
+    return 11 if tier == "quick" else 16
 
 
 def task(arg):
